@@ -94,7 +94,8 @@ Inductive label :=
 | LoaderTurn
 | PersistTick (persistent_store : bool)
 | LoaderRace (id : N) (persistent : bool)    (* a loader turn with a push landing inside it, see q_loader_race *)
-| Restart.                                   (* graceful stop at quiescence and boot, see q_restart *)
+| Restart                                    (* graceful stop at quiescence and boot, see q_restart *)
+| LoaderIterRace.                            (* a loader turn in which the data race on lastIteratedMsgID fires, see q_loader_iter_race *)
 
 Inductive out := ONone | OPop (r : option N) | OPurge (n : Z).
 
@@ -179,6 +180,23 @@ Definition q_loader (c : qcfg) (s : qstate) : qstate :=
         (last ld (lastStored s)) (last ld (lastMem s)) (qlen s) (allids s)
   else s.
 
+(* The two store iterations of a loader turn run in two goroutines that both write the local variable
+   lastIteratedMsgID, and each compares it with lastMemMsgID after its own iteration (a data race in the code).
+   LoaderTurn gives each goroutine its own last id.  LoaderIterRace is the schedule in which the transient
+   iteration runs after the persistent iteration's last callback and before the persistent goroutine's test:
+   both tests then see the id the transient iteration ended on (if it iterated anything). *)
+Definition q_loader_iter_race (c : qcfg) (s : qstate) : qstate :=
+  if loader_proceeds c s then
+    let needle := loader_needle c s in
+    let pm := store_iter (pst s) (lastStored s) needle in
+    let tm := store_iter (tst s) (lastStored s) needle in
+    let ld := loader_loaded c s in
+    let seen := match tm with [] => last pm 0 | _ => last tm 0 end in
+    mkQ (mem s ++ ld) (pst s) (tst s)
+        (negb ((N.of_nat (length pm) =? 0) || (lastMem s =? seen)) || still_swapped (lastMem s) tm)
+        (last ld (lastStored s)) (last ld (lastMem s)) (qlen s) (allids s)
+  else s.
+
 Definition q_tick (s : qstate) (persistent_store : bool) : qstate :=
   if persistent_store
   then mkQ (mem s) (store_persist (pst s)) (tst s) (swapped s) (lastStored s) (lastMem s) (qlen s) (allids s)
@@ -228,6 +246,7 @@ Definition q_step (c : qcfg) (s : qstate) (lab : label) : qstate * out :=
   | PersistTick b => (q_tick s b, ONone)
   | LoaderRace id p => (q_loader_race c s id p, ONone)
   | Restart => (q_restart c s, ONone)
+  | LoaderIterRace => (q_loader_iter_race c s, ONone)
   end.
 
 Fixpoint q_run (c : qcfg) (s : qstate) (ls : list label) : qstate * list out :=
@@ -252,6 +271,7 @@ Definition spec_step (l : list N) (lab : label) : list N * out :=
   | PersistTick _ => (l, ONone)
   | LoaderRace id _ => (l ++ [id], ONone)
   | Restart => (l, ONone)   (* not meaningful on the bare list: see [gspec_run] for label lists with restarts *)
+  | LoaderIterRace => (l, ONone)
   end.
 
 Fixpoint spec_run (l : list N) (ls : list label) : list N * list out :=
@@ -265,7 +285,7 @@ Fixpoint spec_run (l : list N) (ls : list label) : list N * list out :=
 
 (* client operations (what the publishers and consumers do) versus internal turns *)
 Definition is_client (lab : label) : bool :=
-  match lab with LoaderTurn | PersistTick _ => false | _ => true end.
+  match lab with LoaderTurn | PersistTick _ | LoaderIterRace => false | _ => true end.
 
 Definition client (ls : list label) : list label := filter is_client ls.
 
@@ -318,7 +338,7 @@ Definition ghost_step (g : ghost) (lab : label) : ghost :=
   | Requeue id _ => mkGhost (g_next g) (id :: g_list g) (remove1 id (g_outst g)) (g_pers g)
   | AckMsg id _ => mkGhost (g_next g) (g_list g) (remove1 id (g_outst g)) (g_pers g)
   | Purge => mkGhost (g_next g) [] (g_outst g) (g_pers g)
-  | LoaderTurn | PersistTick _ => g
+  | LoaderTurn | PersistTick _ | LoaderIterRace => g
   | LoaderRace id p => mkGhost (id + 1) (g_list g ++ [id]) (g_outst g) (if p then id :: g_pers g else g_pers g)
   | Restart => mkGhost (g_next g) (restart_list g) [] (g_pers g)
   end.
@@ -345,6 +365,7 @@ Definition wf_client (ls : list label) : bool := wf_client_from ghost_init ls.
    F24a   a loader turn proceeds while an overflowed message is still unflushed (pending add above lastMem)
    F24b   purge while swapped to disk
    F24r   a push lands inside a proceeding loader turn (label LoaderRace: the loader holds no lock)
+   F24i   the data race on lastIteratedMsgID fires inside a loader turn (label LoaderIterRace)
    ready  (scheduling, not a defect) a pop finds the ring empty although messages wait on disk: the
           broker's consumers are only woken after a push into the ring, so such a pop is not a delivery
           attempt the clients can see; the hypothesis makes pops comparable across configurations *)
@@ -358,6 +379,7 @@ Definition hyp_step (c : qcfg) (s : qstate) (lab : label) : bool :=
   | Pop => match mem s with [] => match abs_disk s with [] => true | _ => false end | _ => true end
   | LoaderRace _ _ => false
   | Restart => false        (* label lists with restarts: [hyp_r_step] below *)
+  | LoaderIterRace => false
   | _ => true
   end.
 
